@@ -2,8 +2,12 @@ package index
 
 import (
 	"encoding/binary"
+	"errors"
 	"io"
+	goMath "math"
 )
+
+var MetadataTooLargeErr error = errors.New("Metadata too large to be saved (more than 65535 keys, a key longer than 255 bytes or a value longer than 65535 bytes)")
 
 type Metadata map[string]string
 
@@ -17,6 +21,9 @@ func (this Metadata) bytesSize() uint64 {
 }
 
 func (this Metadata) save(w io.Writer) error {
+	if len(this) > goMath.MaxUint16 {
+		return MetadataTooLargeErr
+	}
 	if err := binary.Write(w, binary.BigEndian, uint16(len(this))); err != nil {
 		return err
 	}
@@ -44,6 +51,9 @@ func (this Metadata) load(r io.Reader) error {
 }
 
 func (this Metadata) saveKV(w io.Writer, k string, v string) error {
+	if len(k) > goMath.MaxUint8 || len(v) > goMath.MaxUint16 {
+		return MetadataTooLargeErr
+	}
 	if err := binary.Write(w, binary.BigEndian, uint8(len(k))); err != nil {
 		return err
 	}
